@@ -2,7 +2,7 @@
 R-ALLOC (allocation/use agreement), R-PATH instances on the C DBA routines, n-D stride form."""
 from ..cfront import AnalysisError
 from ..ir import fmt, walk_stmts, walk_expr, stmt_exprs, dotted, sub_blocks
-from ..symexec import assigned_vars
+from ..symexec import assigned_vars, deep_events, Env
 from .iterspace import paths_increments
 
 INF = float('inf')
@@ -475,6 +475,26 @@ def _covers(size, a, b, f):
     return (cov(terms[0], a) and cov(terms[1], b)) or (cov(terms[0], b) and cov(terms[1], a))
 
 
+def _resolve_locals(e, f, depth=4):
+    """Replace locals that have exactly one definition in f (a declaration with initialiser or one assignment) by that definition."""
+    from ..symexec import subst_expr
+    defs = {}
+    for s in walk_stmts(f.body):
+        if s.k == 'decl' and s.init is not None:
+            defs.setdefault(s.name, []).append(s.init)
+        elif s.k == 'assign' and s.target[0] == 'var':
+            defs.setdefault(s.target[1], []).append(s.value)
+        elif s.k in ('for',):
+            defs.setdefault(s.var, []).append(None)
+    one = {k: v[0] for k, v in defs.items() if len(v) == 1 and v[0] is not None and k not in getattr(f, 'args', ())}
+    for _ in range(depth):
+        e2 = subst_expr(e, one)
+        if e2 == e:
+            break
+        e = e2
+    return e
+
+
 def rule_alloc_pyx(ctx, m):
     """(b) pyx: index arrays passed to the C path routines are allocated with len1 + len2 entries of the same lengths."""
     mod = m.pyx('dtw_cc')
@@ -507,7 +527,8 @@ def rule_alloc_pyx(ctx, m):
                                 l1n = 'l1' if 'l1' in pn else 'from_l'
                                 l2n = 'l2' if 'l2' in pn else 'to_l'
                                 a, b = c[2][pn.index(l1n)], c[2][pn.index(l2n)]
-                                size = arrays[arg[1]]
+                                size = _resolve_locals(arrays[arg[1]], f)
+                                a, b = _resolve_locals(a, f), _resolve_locals(b, f)
                                 terms = None
                                 for x in walk_expr(size):
                                     if x[0] == 'bin' and x[1] == '+':
@@ -562,11 +583,12 @@ def _is_mult(e, nd, f, seen):
         if v in [p for p, t in f.params]:
             return False
         seen = seen | {v}
-        defs = [t for t in walk_stmts(f.body) if t.k == 'assign' and t.target == e]
+        defs = [t.value for t in walk_stmts(f.body) if t.k == 'assign' and t.target == e] + \
+               [t.init for t in walk_stmts(f.body) if t.k == 'decl' and t.name == v and t.init is not None]
         if not defs:
             return False
         for t in defs:
-            if not _is_mult(t.value, nd, f, seen):
+            if not _is_mult(t, nd, f, seen):
                 return False
         return True
     return False
@@ -609,20 +631,44 @@ def rule_ndim_stride(ctx, m, funcs):
         nxt = []
         for block, i, loop in _all_loops(f.body):
             if loop.k == 'for' and loop.hi == ('var', 'ndim'):
-                follow = block[i + 1] if i + 1 < len(block) else None
-                txt = _serialise([follow])[0] if follow is not None else None
-                nxt.append((txt, loop.line))
+                # the accumulator of the dimension loop and the way its total is first consumed after the loop: through sqrt (euclidean point distance) or as it is
+                accs = [t.target for t in walk_stmts(loop.body) if t.k == 'assign' and t.target[0] == 'var' and t.d.get('aug') == '+']
+                if len(accs) != 1:
+                    continue
+                nxt.append((_first_use_class(block[i + 1:], accs[0]), loop.line))
         if len(nxt) >= 2:
-            forms = sorted({t for t, _ in nxt if t is not None} | ({None} if any(t is None for t, _ in nxt) else set()), key=str)
+            forms = sorted({str(t) for t, _ in nxt})
             odd = [ln for t, ln in nxt if [x for x, _ in nxt].count(t) == 1] if len(forms) > 1 else []
             ctx.check(len(forms) == 1, 'R-STRIDE', f.file, fname, 'point-distance epilogue',
-                      'the %d copies of the n-D point-distance block in %s do not finish alike: %s (odd one at line %s) -- one region / tail loop uses a different distance than the others'
+                      'the %d copies of the n-D point-distance block in %s do not consume the summed squares alike: %s (odd one at line %s) -- one region / tail loop uses a different distance than the others'
                       % (len(nxt), fname, forms, odd[:1]), (odd or [f.line])[0])
         if fname.endswith('_euclidean') and nxt:
-            ctx.check(all(t is not None and t.replace(' ', '') == 'd=sqrt(d)' for t, _ in nxt), 'R-STRIDE', f.file, fname, 'euclidean point distance',
-                      'in the euclidean variant the sum over the dimensions must be rooted (d = sqrt(d)) after every dimension loop; found %s' % sorted({str(t) for t, _ in nxt}), f.line)
+            ctx.check(all(t == 'sqrt' for t, _ in nxt), 'R-STRIDE', f.file, fname, 'euclidean point distance',
+                      'in the euclidean variant the sum over the dimensions must be rooted (sqrt) after every dimension loop before it is used; found %s' % sorted({str(t) for t, _ in nxt}), f.line)
     ctx.count('n-D subscripts', n)
     return n
+
+
+def _first_use_class(stmts, v):
+    """How the statements following a dimension loop first use the accumulated variable v: 'sqrt' when every occurrence in the first using statement
+    is the argument of sqrt, 'plain' otherwise; None when v is not used before the block ends / v is overwritten."""
+    for s in stmts:
+        occ = 0
+        rooted = 0
+        for t in walk_stmts([s]):
+            for k_, e in enumerate(stmt_exprs(t)):
+                if t.k == 'assign' and k_ == 0 and e == v:
+                    continue          # plain assignment target
+                for x in walk_expr(e):
+                    if x == v:
+                        occ += 1
+                    if x[0] == 'call' and dotted(x[1]) in ('sqrt', 'sqrtf', 'sqrtl') and len(x[2]) == 1 and x[2][0] == v:
+                        rooted += 1
+        if occ:
+            return 'sqrt' if occ == rooted else 'plain'
+        if s.k == 'assign' and s.target == v:
+            return None
+    return None
 
 
 # ------------------------------------------------------------------------------------------ DBA (C) path rules
@@ -643,26 +689,33 @@ def rule_dba_c(ctx, m):
                 guard_ok = guard_ok and _under_mask(loop.body, s, loop.var)
             ctx.check(bool(accs) and guard_ok, 'R-PATH', f.file, fname, 'accumulation under mask [%s]' % tag,
                       'sums and counts must be updated only for series selected by bit_test(mask, r)', loop.line)
-            # pairing: per path element one count increment and one sum per dimension
+            # pairing: per path element one count increment and one sum per dimension -- decided on the symbolic stores of the path loop
             ploops = [l for b2, i2, l in _all_loops(loop.body) if l.k == 'for' and l.hi == ('var', 'path_length')]
             okp = bool(ploops)
+            why = []
             for pl in ploops:
-                cnt = [s for s in pl.body if s.k == 'assign' and s.target[0] == 'idx' and s.target[1] == ('var', 'assoctab_cnt')
-                       and s.value == ('bin', '+', s.target, ('num', 1))]
-                dl = [s for s in pl.body if s.k == 'for' and s.hi == ('var', 'ndim')]
-                okp = okp and len(cnt) == 1 and len(dl) == 1
-                if len(dl) == 1 and len(cnt) == 1:
-                    d = dl[0]
-                    sums = [s for s in d.body if s.k == 'assign' and s.target[0] == 'idx' and s.target[1] == ('var', 'assoctab')]
-                    ci_idx = cnt[0].target[2]      # ci[pi]
-                    want_t = ('bin', '+', ('bin', '*', ci_idx, ('var', 'ndim')), ('var', d.var))
-                    okp = okp and len(sums) == 1 and sums[0].target[2] == want_t and sums[0].d.get('aug') == '+' \
-                        and sums[0].value[3][0] == 'idx' and sums[0].value[3][1] == ('var', 'sequence') \
-                        and sums[0].value[3][2][0] == 'bin' and sums[0].value[3][2][3] == ('var', d.var) \
-                        and sums[0].value[3][2][2][0] == 'bin' and sums[0].value[3][2][2][1] == '*' and sums[0].value[3][2][2][3] == ('var', 'ndim') \
-                        and sums[0].value[3][2][2][2][0] == 'idx' and sums[0].value[3][2][2][2][1] != ci_idx[1]
+                evs = [(ev, lps) for ev, lps in deep_events(pl.body, Env({pl.var: ('var', pl.var)})) if ev[0] == 'store' and ev[2][0] == 'idx']
+                cnts = [(ev, lps) for ev, lps in evs if ev[3] == ('bin', '+', ev[2], ('num', 1))]
+                sums = [(ev, lps) for ev, lps in evs if (ev, lps) not in cnts]
+                if len(cnts) != 1 or len(sums) != 1 or cnts[0][1] or cnts[0][0][1] or sums[0][0][1]:
+                    okp = False
+                    why.append('%d count and %d sum stores per path element' % (len(cnts), len(sums)))
+                    continue
+                cev, (sev, slps) = cnts[0][0], sums[0]
+                item = cev[2][2]                                    # ci[pi]
+                dl = [l for l in slps if l.k == 'for' and l.hi == ('var', 'ndim') and l.lo == ('num', 0)]
+                ok1 = len(slps) == 1 and len(dl) == 1
+                if ok1:
+                    dv = ('var', dl[0].var)
+                    t_item = _item_of(sev[2][2], dv)
+                    val = sev[3]
+                    rd = val[3] if val[0] == 'bin' and val[1] == '+' and val[2] == sev[2] else None
+                    s_item = _item_of(rd[2], dv) if rd is not None and rd[0] == 'idx' else None
+                    ok1 = t_item == item and s_item is not None and s_item[0] == 'idx' and item[0] == 'idx' and s_item[1] != item[1] and s_item[2] == item[2] \
+                        and sev[2][1] != cev[2][1]
+                okp = okp and ok1
             ctx.check(okp, 'R-PATH', f.file, fname, 'sum/count pairing [%s]' % tag,
-                      'for every path element (ci, mi): assoctab[ci*ndim+d] += sequence[mi*ndim+d] for all d and assoctab_cnt[ci] += 1 exactly once', loop.line)
+                      'for every path element (ci, mi): assoctab[ci*ndim+d] += sequence[mi*ndim+d] for all d and assoctab_cnt[ci] += 1 exactly once %s' % '; '.join(why), loop.line)
             if fname == 'dtw_dba_matrix':
                 incs = paths_increments(loop.body, 'r_idx')
                 top = [s for s in loop.body if s.k == 'assign' and s.target == ('var', 'r_idx')]
@@ -670,19 +723,68 @@ def rule_dba_c(ctx, m):
                 ctx.check(ok, 'R-PATH', f.file, fname, 'row offset advance [%s]' % tag,
                           'r_idx must advance by nb_cols*ndim on EVERY iteration of the series loop (masked or not); otherwise later series are read '
                           'from the wrong offset', loop.line)
-        # mean = sum / count guarded by count != 0
+        # mean = sum / count guarded by count != 0 -- on the symbolic stores to the average (4th parameter)
+        avg = ('var', f.params[3][0])
         ok = False
-        for s in walk_stmts(f.body):
-            if s.k == 'if' and s.cond[0] == 'bin' and s.cond[1] == '!=' and s.cond[2][0] == 'idx' and s.cond[2][1] == ('var', 'assoctab_cnt') and s.cond[3] == ('num', 0):
-                for t in walk_stmts(s.then):
-                    if t.k == 'assign' and t.target[0] == 'idx' and t.target[1] == ('var', 'c') and t.value[0] == 'bin' and t.value[1] == '/' \
-                            and t.value[2][0] == 'idx' and t.value[2][1] == ('var', 'assoctab') and t.value[2][2] == t.target[2] \
-                            and t.value[3] == s.cond[2]:
-                        ok = True
-        ctx.check(ok, 'R-PATH', f.file, fname, 'mean', 'the new average must be assoctab[i*ndim+d] / assoctab_cnt[i], guarded by assoctab_cnt[i] != 0', f.line)
+        bad = False
+        for ev, lps in deep_events(f.body):
+            if ev[0] != 'store' or ev[2][0] != 'idx' or ev[2][1] != avg:
+                continue
+            v = ev[3]
+            if v[0] == 'bin' and v[1] == '/' and v[2][0] == 'idx' and v[3][0] == 'idx':
+                nonzero = any(_cmp_zero(c, v[3]) == 'nonzero' for c in kern_conj(ev[1]))
+                same = v[2][2] == ev[2][2] and v[2][1] != v[3][1]
+                if nonzero and same:
+                    ok = True
+                else:
+                    bad = True
+            elif v != ('num', 0) and any(x[0] == 'bin' and x[1] == '/' for x in walk_expr(v)):
+                bad = True
+        ctx.check(ok and not bad, 'R-PATH', f.file, fname, 'mean', 'the new average must be assoctab[i*ndim+d] / assoctab_cnt[i], guarded by assoctab_cnt[i] != 0', f.line)
         # initialisation of sums and counts to 0
         init = [s for s in walk_stmts(f.body) if s.k == 'assign' and s.target[0] == 'idx' and s.target[1] in (('var', 'assoctab'), ('var', 'assoctab_cnt')) and s.value == ('num', 0)]
         ctx.check(len(init) >= 2, 'R-PATH', f.file, fname, 'accumulator reset', 'sums and counts must be zeroed before accumulation', f.line)
+
+
+def _item_of(e, dv):
+    """e == item * ndim + d (any order, product either way) -> item expression; None otherwise."""
+    adds = []
+
+    def flat(x):
+        if x[0] == 'bin' and x[1] == '+':
+            flat(x[2])
+            flat(x[3])
+        else:
+            adds.append(x)
+    flat(e)
+    if len(adds) != 2 or dv not in adds:
+        return None
+    p = [a for a in adds if a != dv][0] if adds.count(dv) == 1 else None
+    if p is None or not (p[0] == 'bin' and p[1] == '*'):
+        return None
+    if p[3] == ('var', 'ndim'):
+        return p[2]
+    if p[2] == ('var', 'ndim'):
+        return p[3]
+    return None
+
+
+def _cmp_zero(c, cell):
+    """'nonzero' when condition c states cell != 0 (or cell > 0 / not (cell == 0)), 'zero' for the opposite, None otherwise."""
+    neg = False
+    while c[0] == 'un' and c[1] == 'not':
+        c, neg = c[2], not neg
+    if c == cell:
+        return 'zero' if neg else 'nonzero'
+    if c[0] == 'bin' and c[1] in ('!=', '==', '>') and ((c[2] == cell and c[3] == ('num', 0)) or (c[3] == cell and c[2] == ('num', 0) and c[1] != '>')):
+        pos = c[1] in ('!=', '>')
+        return 'nonzero' if pos != neg else 'zero'
+    return None
+
+
+def kern_conj(path):
+    from .kern import _conj
+    return _conj(path)
 
 
 def _under_mask(stmts, target, rvar):
